@@ -244,6 +244,17 @@ def execute(schedule, ctx):
             outA = _outcome(call_A)
         postA = ref_solver.snapshot(A)
         if outA['kind'] == 'interrupt':
+            # An asynchronous exception can land on the bytecode boundary just before a `with` block's normal-exit call
+            # (CPython leaves that window open for KeyboardInterrupt too), so fsic's catch_warnings block may not have
+            # restored the process-wide filter list. The other parties are separate experiments: give them the run's
+            # pinned global state again. (Recorded, not asserted: the property does not mention it.)
+            import warnings as _w
+
+            from .. import kernel as _k
+
+            if not _w.filters or _w.filters[0][0] != 'ignore' or len(_w.filters) != 1:
+                ctx.probe('interrupt-left-warning-filters-changed')
+            _k.pin_globals(ctx.np_err)
             ctx.fault('interrupt-seam' if 'seam' in intr else 'interrupt-line')
             if lb is not None and lb.where:
                 ctx.probe(f'interrupt-at:{lb.where[0]}:{lb.where[1]}')
